@@ -3,6 +3,7 @@ package sim
 import (
 	"fmt"
 	"math/big"
+	"os"
 	"sort"
 	"strings"
 	"time"
@@ -45,15 +46,15 @@ func (a Addr) Str(upper bool) string {
 
 // Hooks are the observation points an oracle can attach to.
 type Hooks struct {
-	Prop          string
-	Init          func(w *World)
-	BeforeBegin   func(w *World, now time.Time)
-	AfterBegin    func(w *World, resp abci.ResponseBeginBlock)
-	BeforeTx      func(w *World, t *BuiltTx)
-	AfterTx       func(w *World, t *BuiltTx)
-	AfterEnd      func(w *World, resp abci.ResponseEndBlock)
-	AfterCommit   func(w *World)
-	Finish        func(w *World)
+	Prop        string
+	Init        func(w *World)
+	BeforeBegin func(w *World, now time.Time)
+	AfterBegin  func(w *World, resp abci.ResponseBeginBlock)
+	BeforeTx    func(w *World, t *BuiltTx)
+	AfterTx     func(w *World, t *BuiltTx)
+	AfterEnd    func(w *World, resp abci.ResponseEndBlock)
+	AfterCommit func(w *World)
+	Finish      func(w *World)
 }
 
 var registry = map[string]Hooks{}
@@ -87,25 +88,26 @@ type World struct {
 	Classes  map[string]int
 	Notes    map[string]interface{} // oracle scratch space
 
-	Grants      map[string]bool // "granterKey|granteeKey"
-	FeeGrants   map[string]bool
-	Ghosts      []Ghost
-	Proposals   []*Proposal
-	NextPropID  uint64
-	strCounter  int
+	Grants       map[string]bool // "granterKey|granteeKey"
+	FeeGrants    map[string]bool
+	Ghosts       []Ghost
+	Proposals    []*Proposal
+	NextPropID   uint64
+	strCounter   int
 	EntPrev      map[uint64]int
 	EntOutcomes  []TallyOutcome
 	EntCompleted []*Order
-	RepeatIdx   int
-	BlockIdx    int
-	TxIdx       int
-	Trace       []string // short human-readable history (for samples / replays)
-	TraceOn     bool
-	AppHashes   [][]byte
-	TxResults   []TxResult
-	SkipCheckTx bool // C01: node B does not run mempool checks
-	AliasTo     string
-	Alias       map[string]string // aliased property -> params kind whose update makes it count
+	Restarts     int // network restarts from an exported genesis so far
+	RepeatIdx    int
+	BlockIdx     int
+	TxIdx        int
+	Trace        []string // short human-readable history (for samples / replays)
+	TraceOn      bool
+	AppHashes    [][]byte
+	TxResults    []TxResult
+	SkipCheckTx  bool // C01: node B does not run mempool checks
+	AliasTo      string
+	Alias        map[string]string // aliased property -> params kind whose update makes it count
 }
 
 // TxResult is the consensus-relevant part of a DeliverTx response.
@@ -198,6 +200,9 @@ func (w *World) tracef(format string, args ...interface{}) {
 
 // NewWorld builds the chain for a scenario and wires the oracles of the enabled properties.
 func NewWorld(s *Scenario, opts lab.NodeOpts, props ...string) (*World, error) {
+	if s.MinGasPrices != "" {
+		opts.MinGasPrices = s.MinGasPrices
+	}
 	c, err := lab.New(s.Gen, opts)
 	if err != nil {
 		return nil, err
@@ -332,7 +337,37 @@ func (w *World) stepEntModel() {
 }
 
 // RunBlock executes one block; false = stop the case.
+// reimport restarts the network from a genesis document exported from the current state.
+func (w *World) reimport() {
+	if w.C.InBlock || w.Diverged {
+		return
+	}
+	state, err := w.C.Export()
+	if err != nil {
+		w.Class("restart.export-failed")
+		return
+	}
+	nc, err := lab.ImportAppState(w.S.Gen, lab.NodeOpts{DB: "mem", SkipGenesisInv: true, MinGasPrices: w.S.MinGasPrices}, state, w.C.Now)
+	if err != nil {
+		w.Class("restart.import-failed")
+		if os.Getenv("VERIF_DEBUG_IMPORT") != "" {
+			fmt.Println("IMPORT-FAILED:", short(err.Error()))
+		}
+		return
+	}
+	old := w.C
+	w.C = nc
+	old.Close()
+	delete(w.Notes, "c17.gateway")
+	w.Restarts++
+	w.Class("restart.from-exported-genesis")
+	w.tracef("network restarted from the exported genesis (restart %d)", w.Restarts)
+}
+
 func (w *World) RunBlock(b *Block) bool {
+	if b.Reimport {
+		w.reimport()
+	}
 	dt := b.DtMs
 	if dt < 0 {
 		dt = 0
